@@ -187,7 +187,8 @@ fn gen_step(r: &mut Rng, which: Which) -> Step {
             }
             s.fail_fast = r.chance(1, 4);
             if s.files.is_empty() && r.chance(1, 4) {
-                s.root = Some(*r.pick(&["./src", "./src/sub", "./lib"]));
+                // a sub-directory, or a single file as the target (its directory is then not evaluated)
+                s.root = Some(*r.pick(&["./src", "./src/sub", "./lib", "./src/a.rs", "./src/sub/d.rs"]));
             }
         }
         Which::C11 => {
